@@ -5,7 +5,9 @@ from ..framework import canon
 PROP = "C13"
 LEAN_TARGETS = ["Eliot.Properties.C13"]
 AUDIT = "Eliot/Audit/C13.lean"
-SKELETON_TARGETS = {"Sys.C13.skeleton_E9": "Eliot.Properties.C13Skel"}
+SKELETON_TARGETS = {"Sys.C13.skeleton_E9": "Eliot.Properties.C13Skel",
+                    "Eliot.ShapesSkel.serialize_shape (E16: _MessageSerializer.serialize is one pass over the declared fields)":
+                    ("Eliot.Properties.ShapesSkel", "Eliot/Audit/ShapesSkel.lean", ["Eliot.ShapesSkel.serialize_shape"])}
 THEOREMS = ["Sys.C13.serializeFields_eq", "Sys.C13.serializers_called_once", "Sys.C13.serialized_exactly_once",
             "Sys.C13.success_stages_serialized", "Sys.C13.serializer_failure_contained", "Sys.C13.per_kind_serializer",
             "Sys.C13.per_kind_serializer_success", "Sys.C13.per_kind_serializer_failure", "Sys.C13.logNoSer_healthy_exact",
